@@ -20,7 +20,10 @@ log=open(f'/tmp/seedrun_{name}.log',errors='replace').read()
 viol=[l for l in log.splitlines() if l.startswith('VIOLATION')]
 fi=[l.strip() for l in log.splitlines() if 'failing input' in l][:2]
 p=f'/verif/seeded/{name}/meta.json'; m=json.load(open(p))
-m['verif_check_result']={"tier":tier,"exit":rc,"caught":bool(viol) and rc==1,"violation_lines":viol[:3],"failing_input":fi}
+run={"tier":tier,"exit":rc,"caught":bool(viol) and rc==1,"concrete_input":bool(fi),"violation_lines":viol[:3],"failing_input":fi}
+m['verif_check_run']=run   # latest automated run; the first outcome is kept in verif_first_run
+if 'verif_first_run' not in m and not isinstance(m.get('verif_check_result'),str):
+    m['verif_first_run']='missed' if not run['caught'] else ('caught' if fi else 'noinput')
 json.dump(m,open(p,'w'),indent=1)
 print("caught" if viol and rc==1 else "MISSED", name)
 PY
